@@ -21,14 +21,15 @@
                                     between two NOOPs remove exactly the messages that left the mailbox
     noop_sync                       clause 4 (corollary of C07's noop_sync): same length, every labelled
                                     slot carries the UID at that position
+    check_point_sync                clause 4 as the oracle evaluates it: after NOOP and UID FETCH 1:* (UID) the
+                                    announced view is literally the mailbox's UID list, every slot labelled
     no_expunge_in_poll, legacy_move_counterexample, legacy_fetch_counterexample (findings F09/F10)
   Partial by design, not by proof: "*" under a stale view is resolved as the code does (against the
-  server's count, DESIGN §7 Q1). Not stated: that the UID FETCH 1:* of a check point labels every slot
-  (the oracle checks it on every run).
+  server's count, DESIGN §7 Q1).
 -/
 import GoImap.Model.Views
 import GoImap.Spec.Views
-import GoImap.Lemmas.ViewsSpecFacts
+import GoImap.Lemmas.ViewsSync
 import GoImap.Props.C07
 namespace GoImap.C08
 open GoImap.Tracker GoImap.TrackerSpec GoImap.TrackerLemmas GoImap.Views GoImap.ViewsSpec GoImap.ViewsLemmas
@@ -61,6 +62,20 @@ theorem oracle_accepts (nmb nconn : Nat) (ops : List (Nat × Cmd)) :
 example : ∃ st A, judge {} (Views.init 2 2) [[], []]
     [(0, .append 0 1), (0, .select 0), (1, .select 0), (1, .expunge), (0, .fetch false [(1, 0)] true false),
      (0, .noop)] = .ok (st, A) ∧ A = [[], []] := ⟨_, _, rfl, by decide⟩
+
+/-- a history leaving connection 0 with a stale view: it was announced three messages; meanwhile
+    connection 1 expunged the first one and appended a fourth -/
+def demoOps : List (Nat × Cmd) :=
+  [(0, .append 0 1), (0, .append 0 0), (0, .append 0 0), (0, .select 0), (1, .select 0), (1, .expunge), (1, .append 0 4)]
+
+/-- the hypotheses of the theorems below are satisfiable in a non-trivial way: in the state reached by
+    `demoOps`, `FETCH 1:* (FLAGS)` on connection 0 answers for its messages 2 and 3 (the server's 1 and 2;
+    the server's third message is not announced yet and is skipped), and NOOP then reports the expunge
+    of its message 1 and the new count -/
+example : ∃ st A, Reach 2 2 st A ∧ A.getD 0 [] = [none, none, none] ∧
+    (exec {} st 0 (.fetch false [(1, 0)] true false)).2.evs = [.fetch 2 2 (some 0), .fetch 3 3 (some 0)] ∧
+    (exec {} st 0 .noop).2.evs = [.expunge 1, .exists_ 3] :=
+  ⟨_, _, ⟨demoOps, rfl⟩, by decide, by decide, by decide⟩
 
 /-- every state reached by a history carries the invariant: each mailbox's tracker is in C07's `Inv`
     with a ghost mailbox, each selected connection's announced view is its ghost session's view -/
@@ -142,7 +157,7 @@ theorem noop_sync {nmb nconn : Nat} {st : Views.St} {A : List View} (h : Reach n
     have hc' : getConn st c = some cn := hc
     simp only [exec, exec?, hc', hi, hr]
   obtain ⟨G', Ac, hacc, h', hsync⟩ := ginv_poll hG hr false true (by intro hh; cases hh)
-  obtain ⟨g', hg', hv⟩ := hsync rfl cn m hc hs
+  obtain ⟨g', _, hg', _, _, _, _, hv⟩ := hsync rfl cn m hc hs
   have hmlt : m < st'.mb.length := by rw [h'.mlen]; exact (List.getElem?_eq_some_iff.mp hg').1
   have hb : st'.mb[m]? = some st'.mb[m] := List.getElem?_eq_getElem hmlt
   have hmb := h'.mb m _ g' hb hg'
@@ -155,6 +170,17 @@ theorem noop_sync {nmb nconn : Nat} {st : Views.St} {A : List View} (h : Reach n
     have h1 : (st'.mb[m].msgs.map (·.uid))[j]? = some u := by
       rw [hmb.uids]; simp [hi', hu]
     simpa using h1
+
+/-- clause 4 as evaluated at the harness's check points: NOOP, then UID FETCH 1:* (UID) on the same
+    connection; the announced view rebuilt from those responses is exactly the mailbox's UID list -/
+theorem check_point_sync {nmb nconn : Nat} {st : Views.St} {A : List View} (h : Reach nmb nconn st A) {c : Nat}
+    {cn : Conn} (hc : st.conns[c]? = some cn) (hi : cn.idle = false) {m : Nat} (hs : cn.sel = some m) :
+    ∃ Ac1 Ac2 b, stepView .other (exec {} st c .noop).2 (A.getD c []) = .ok Ac1 ∧
+      stepView .other (exec {} (exec {} st c .noop).1 c (.fetch true [(1, 0)] false false)).2 Ac1 = .ok Ac2 ∧
+      (exec {} (exec {} st c .noop).1 c (.fetch true [(1, 0)] false false)).1.mb[m]? = some b ∧
+      Ac2 = b.msgs.map fun x => some x.uid := by
+  obtain ⟨G, hG⟩ := reach_ginv h
+  exact check_point hG hc hi hs
 
 /-- clause 3b. In a reachable state the labels of an announced view are pairwise distinct: no message
     ever occupies two announced slots, so an EXPUNGE (which removes exactly one slot,
